@@ -344,7 +344,7 @@ def poll_diff(p, rust_line, model_line):
 
 
 def body(ctx, kinds=("a1t0s0", "a1t1s0", "a1t0s1", "a1t1s1"), n=None, profiles=None, **kw):
-    n = (70 if ctx.quick() else 700) if n is None else n
+    n = (ctx.n(70, 700)) if n is None else n
     params = dict(max_depth=3, max_branches=3, fail_rate=(1, 6), handler_rate=(1, 3), block_rate=(1, 5), name_rate=(1, 4))
     params.update(kw)
     progs = [gen_async(ctx.rng, "p%d" % i, ctx.rng.pick(list(kinds)), **params) for i in range(n)]
@@ -437,7 +437,7 @@ def body(ctx, kinds=("a1t0s0", "a1t1s0", "a1t0s1", "a1t1s1"), n=None, profiles=N
 def body_panics(ctx, kinds=("a1t0s0", "a1t1s0", "a1t0s1", "a1t1s1"), n=None):
     """C18 for the async variants: exactly one user callback panics (no failing branch, so nothing can win a race against
     it): the macro's future must panic when driven - it may not complete normally, hang, or be left pending forever."""
-    n = (24 if ctx.quick() else 240) if n is None else n
+    n = (ctx.n(24, 240)) if n is None else n
     rng = ctx.rng
     progs = []
     for i in range(n):
